@@ -205,6 +205,12 @@ def _uni_constructor_args(R):
     wl = [1.0, 2.0] * (len(x) // 2)
     m2 = U.GaussianKDE(weights=wl)
     R.twice('uni:kde(weights=list).fit', m2.fit, (x.copy(),), owned=(wl,), compare=False)
+    # truncation bounds handed over as (0-d / 1-element) arrays
+    lo_a, hi_a = np.array(float(x.min()) - 1.0), np.array([float(x.max()) + 2.0])
+    tg = U.TruncatedGaussian(minimum=lo_a, maximum=hi_a)
+    R.twice('uni:truncated(bounds as ndarrays).fit', tg.fit, (x.copy(),), owned=(lo_a, hi_a), compare=False)
+    R.twice('uni:truncated(bounds as ndarrays).cumulative_distribution', tg.cumulative_distribution,
+            (np.quantile(x, [0.1, 0.5, 0.9]),), owned=(lo_a, hi_a))
     cands = [U.GammaUnivariate, U.GaussianKDE(bw_method=0.5), 'copulas.univariate.uniform.UniformUnivariate']
     m3 = U.Univariate(candidates=cands)
     R.twice('uni:Univariate(candidates=list).fit', m3.fit, (x.copy(),), owned=(cands,), compare=False)
@@ -453,6 +459,22 @@ def _plots(R, dim):
                         case=R.case)
     elif res:
         r.violation(f'C20:plots:scatter_{dim}d:raises', f'{label}: raised {res[0].name}: {res[0].msg}', case=R.case)
+    # frames whose row index is not 0..n-1 (a filtered table, a string index): every row is still a point of the figure
+    for iname, index in (('filtered integer index', [3, 7, 9, 12]), ('string index', ['r1', 'r2', 'r3', 'r4'])):
+        dfi = pd.DataFrame({c: base[c] for c in use}, index=index)
+        wanti = sorted(map(tuple, dfi[use].to_numpy().tolist()))
+        syni = pd.DataFrame({c: [100.0 + 3 * i + k for i in range(3)] for k, c in enumerate(use)}, index=index[1:])
+        wsyni = sorted(map(tuple, syni[use].to_numpy().tolist()))
+        for label, fn, args, expect in ((f'plots:scatter_{dim}d(rows=4,{iname})', scatter, (dfi,), {'Real': wanti}),
+                                        (f'plots:compare_{dim}d(real and synthetic with a {iname})', compare, (dfi, syni),
+                                         {'Real': wanti, 'Synthetic': wsyni})):
+            res = R.twice(label, fn, args)
+            if res and not isinstance(res[0], zoo.Raised):
+                tp = trace_points(res[0])
+                if tp != expect:
+                    r.violation(f'C20:plots:{fn.__name__}:wrong-points', f'{label}: traces {tp}; expected {expect}', case=R.case)
+            elif res:
+                r.violation(f'C20:plots:{fn.__name__}:raises', f'{label}: raised {res[0].name}: {res[0].msg}', case=R.case)
     syn = pd.DataFrame({c: [100.0 + 3 * i + k for i in range(3)] for k, c in enumerate(use)})
     wsyn = sorted(map(tuple, syn[use].to_numpy().tolist()))
     label = f'plots:compare_{dim}d(real has an extra column with NaN that synthetic lacks,columns=given)'
